@@ -35,16 +35,16 @@ def _model_dict(m):
     return out
 
 
-def _z3_check(text, timeout_ms):
+def _z3_check(text, timeout_ms, attempts=None):
     """one query in a context of its own: what the worker process inherited (the generator's terms, earlier queries) must
     not influence the search -- the same text took 0.3 s in a fresh context and > 30 s in a used one.  A query that is
     still `unknown` is retried once with another seed (slow queries are the unstable ones)."""
     t0 = time.time()
     r, s = z3.unknown, None
-    for attempt, seed in enumerate((0, 7)):
+    for attempt, (seed, tmo) in enumerate(attempts or ((0, timeout_ms), (7, max(1000, timeout_ms // 2)))):
         c = z3.Context()
         s = z3.Solver(ctx=c)
-        s.set("timeout", timeout_ms if attempt == 0 else max(1000, timeout_ms // 2))
+        s.set("timeout", tmo)
         if seed:
             s.set("random_seed", seed)
         s.from_string(text)
@@ -113,26 +113,57 @@ def _cvc5_check(text, timeout_ms, produce_model=False):
 def _work(task):
     name, text, z3_ms, cvc5_ms, both = task
     res = {"name": name, "backends": []}
-    try:
-        st, dt, md, why = _z3_check(text, z3_ms)
-    except Exception as e:
-        st, dt, md, why = "unknown", 0.0, None, "z3 error: %r" % (e,)
+    # portfolio: (A) z3, short slice -- decides the bulk; (B) cvc5, short -- on quantified obligations over sequences it
+    # often answers `unsat` in milliseconds where z3 needs minutes; (C) z3 with the full budget and a second seed;
+    # (D) cvc5 with its full budget.  `refuted` is only taken from z3 (its model feeds the replay) unless z3 stays unknown.
+    def run_z3(attempts):
+        try:
+            return _z3_check(text, z3_ms, attempts=attempts)
+        except Exception as e:
+            return "unknown", 0.0, None, "z3 error: %r" % (e,)
+
+    def run_cvc5(ms):
+        try:
+            return _cvc5_check(text, ms, produce_model=False)
+        except Exception as e:
+            return "unknown", 0.0, None, "cvc5 error: %r" % (e,)
+
+    short = min(2000, z3_ms)
+    st, dt, md, why = run_z3(((0, short),))
     res["backends"].append({"solver": "z3", "status": st, "time_s": round(dt, 4), "why": why})
     final, model, by = st, md, "z3"
-    if st == "unknown" or (both and st == "proved"):
-        try:
-            st2, dt2, md2, why2 = _cvc5_check(text, cvc5_ms, produce_model=False)
-        except Exception as e:
-            st2, dt2, md2, why2 = "unknown", 0.0, None, "cvc5 error: %r" % (e,)
+    st2 = None
+    if st == "unknown":
+        st2, dt2, md2, why2 = run_cvc5(min(5000, cvc5_ms))
         res["backends"].append({"solver": "cvc5", "status": st2, "time_s": round(dt2, 4), "why": why2})
-        if st == "unknown":
-            final, model, by = st2, md2, "cvc5"
-            if st2 == "refuted":
-                # a cvc5 model is not used for replay; report as undecided-with-hint unless z3 can confirm
-                final = "refuted"
-        elif both and st2 == "refuted":
+        if st2 == "proved":
+            final, model, by = "proved", None, "cvc5"
+        else:
+            st, dt, md, why = run_z3(((0, z3_ms), (7, max(1000, z3_ms // 2))))
+            res["backends"].append({"solver": "z3", "status": st, "time_s": round(dt, 4), "why": why})
+            final, model, by = st, md, "z3"
+            if st == "unknown":
+                if st2 != "refuted" and cvc5_ms > 5000 and "rror" not in (why2 or ""):
+                    st2, dt2, md2, why2 = run_cvc5(cvc5_ms)
+                    res["backends"].append({"solver": "cvc5", "status": st2, "time_s": round(dt2, 4), "why": why2})
+                if st2 in ("proved", "refuted"):
+                    final, model, by = st2, md2, "cvc5"
+    if both and final == "proved":
+        # thorough tier: the other solver has to agree
+        if by == "z3":
+            st2, dt2, md2, why2 = run_cvc5(cvc5_ms)
+            res["backends"].append({"solver": "cvc5", "status": st2, "time_s": round(dt2, 4), "why": why2})
+        else:
+            st2 = "proved"
+            stz, dtz, mdz, whyz = run_z3(((0, z3_ms),))
+            res["backends"].append({"solver": "z3", "status": stz, "time_s": round(dtz, 4), "why": whyz})
+            if stz == "refuted":
+                st2 = "refuted"
+            elif stz == "proved":
+                by = "z3"
+        if st2 == "refuted":
             final, by = "undecided", "z3/cvc5 disagree"
-        elif both and st2 == "proved":
+        elif st2 == "proved" and by == "z3":
             by = "z3+cvc5"
     if final == "unknown":
         final = "undecided"
